@@ -6,6 +6,7 @@ import (
 	"os"
 	"sort"
 	"strings"
+	"time"
 
 	openfgav1 "github.com/openfga/api/proto/openfga/v1"
 	"google.golang.org/protobuf/encoding/protojson"
@@ -295,5 +296,125 @@ func ReplayList(c *vk.Ctx, path string) {
 		if got[e] != strings.Join(want, ",") {
 			c.Violation("", "replay|"+e, fmt.Sprintf("replayed: engine %s returned [%s], reference %v", e, got[e], want), map[string]any{"file": path})
 		}
+	}
+}
+
+// ReplayListUsers re-executes a ListUsers witness (request.user holds "type#relation" of the filter),
+// prints the reference expectation and the per-user Check answers, and (VERIF_MINIMIZE) shrinks the
+// stored tuples while ListUsers still deviates from the reference.
+func ReplayListUsers(c *vk.Ctx, path string) {
+	b, err := os.ReadFile(path)
+	if err != nil {
+		c.HarnessError("replay: %v", err)
+		return
+	}
+	var doc struct {
+		Witness wire `json:"witness"`
+	}
+	if err := json.Unmarshal(b, &doc); err != nil {
+		c.HarnessError("replay: %v", err)
+		return
+	}
+	w := doc.Witness
+	model := &openfgav1.AuthorizationModel{}
+	perm := &openfgav1.AuthorizationModel{}
+	if err := protojson.Unmarshal(w.Model, model); err != nil {
+		c.HarnessError("replay: model: %v", err)
+		return
+	}
+	_ = protojson.Unmarshal(w.Permissive, perm)
+	parse := func(raw []json.RawMessage) []*openfgav1.TupleKey {
+		var out []*openfgav1.TupleKey
+		for _, r := range raw {
+			tk := &openfgav1.TupleKey{}
+			if err := protojson.Unmarshal(r, tk); err == nil {
+				out = append(out, tk)
+			}
+		}
+		return out
+	}
+	stored, contextual := parse(w.Stored), parse(w.Contextual)
+	var rctx *structpb.Struct
+	if len(w.Ctx) > 0 {
+		rctx = &structpb.Struct{}
+		_ = protojson.Unmarshal(w.Ctx, rctx)
+	}
+	rm := ref.NewModel(model, ref.TemplateCondEval)
+	object, rel := w.Request.Object, w.Request.Relation
+	ft, fr := ref.UserParts(w.Request.User)
+	srv, err := drive.New(drive.Cfg{LUDeadline: 2 * time.Second})
+	if err != nil {
+		c.HarnessError("replay: %v", err)
+		return
+	}
+	defer srv.Close()
+	run := func(ts []*openfgav1.TupleKey, verbose bool) bool {
+		var extra []string
+		for _, id := range gen.UserIDs {
+			extra = append(extra, "user:"+id)
+		}
+		rc := ref.NewCase(rm, append(append([]*openfgav1.TupleKey{}, ts...), contextual...), rctx, append(extra, object)...)
+		exp := RefListUsers(rc, object, rel, ft, fr)
+		gc := &gen.Case{Name: "replay", Model: model, Permissive: perm}
+		store, _ := srv.CreateStore("replay")
+		p, err := Install(c, srv, gc, store, ts)
+		if err != nil {
+			return false
+		}
+		lo := srv.ListUsers(drive.Req{Store: p.Store, Object: object, Relation: rel, Ctx: rctx, Contextual: contextual}, ft, fr)
+		got := append([]string{}, lo.Items...)
+		sort.Strings(got)
+		wild := false
+		for _, g := range got {
+			if ref.IsWildcard(g) {
+				wild = true
+			}
+		}
+		bad := lo.Err != nil
+		for _, g := range got {
+			if rc.Eval(g).K(object, rel) != ref.T {
+				bad = true
+			}
+		}
+		if !wild {
+			for _, u := range exp.Concrete {
+				found := false
+				for _, g := range got {
+					if g == u {
+						found = true
+					}
+				}
+				if !found {
+					bad = true
+				}
+			}
+		}
+		if verbose {
+			fmt.Printf("stored: %v\ncontextual: %v\nListUsers(%s#%s, filter %s#%s) ctx=%s -> %v err=%v\nreference: concrete=%v wildcard=%v\n", gen.TupleStrings(ts), gen.TupleStrings(contextual), object, rel, ft, fr, gen.CtxString(rctx), got, lo.Err, exp.Concrete, exp.Wildcard)
+			for u, k := range exp.Values {
+				o := srv.Check(drive.Req{Store: p.Store, Object: object, Relation: rel, User: u, Ctx: rctx, Contextual: contextual})
+				fmt.Printf("  Check(@%s): reference %s, server %s\n", u, k, o)
+			}
+		}
+		return bad
+	}
+	fmt.Printf("REPLAY %s\n%s\n", path, rm.DSL())
+	if os.Getenv("VERIF_MINIMIZE") != "" && run(stored, false) {
+		for changed := true; changed; {
+			changed = false
+			for i := 0; i < len(stored); i++ {
+				cand := append(append([]*openfgav1.TupleKey{}, stored[:i]...), stored[i+1:]...)
+				if run(cand, false) {
+					stored = cand
+					changed = true
+					i--
+				}
+			}
+		}
+	}
+	c.Case("replay", true)
+	c.Case("replay2", true)
+	if run(stored, true) {
+		c.Violation("", "replay", "replayed ListUsers deviation reproduces", map[string]any{"file": path})
 	}
 }
